@@ -702,6 +702,23 @@ func (i *interpreter) rangeIter(fr *frame, x value, t types.Type) iter {
 		if x != nil {
 			i.accessObj(fr, &x.cell, false)
 		}
+		if i.cfg.MapOrderFork && x != nil && x.n >= 2 && x.n <= 3 && !strings.Contains(i.posString(fr.fn.Pos(), fr.fn), "/zz_") {
+			// Go leaves the iteration order of a map unspecified: every order of a
+			// small map is a separate path
+			var live []int
+			for k := range x.keys {
+				if x.alive[k] {
+					live = append(live, k)
+				}
+			}
+			perms := permutations(len(live))
+			pm := perms[i.ps.choose(len(perms), "map iteration order")]
+			order := make([]int, len(live))
+			for a, b := range pm {
+				order[a] = live[b]
+			}
+			return &mapIter{m: x, order: order}
+		}
 		return &mapIter{m: x}
 	case string:
 		return &stringIter{s: x}
@@ -711,6 +728,20 @@ func (i *interpreter) rangeIter(fr *frame, x value, t types.Type) iter {
 		i.unsupported("range over opaque symbolic string")
 	}
 	panic(fmt.Sprintf("cannot range over %T", x))
+}
+
+func permutations(n int) [][]int {
+	if n == 0 {
+		return [][]int{{}}
+	}
+	var out [][]int
+	for _, p := range permutations(n - 1) {
+		for pos := 0; pos <= len(p); pos++ {
+			q := append(append(append([]int{}, p[:pos]...), n-1), p[pos:]...)
+			out = append(out, q)
+		}
+	}
+	return out
 }
 
 // ---------------------------------------------------------------------------
